@@ -15,11 +15,29 @@ Variable R : rcfType.
 Variable exp_ : R -> R.
 Variable round_ : R -> R.
 
+(* binary, so that simplifying a large literal never builds a unary number *)
+Fixpoint PtoR (p : positive) : R :=
+  match p with
+  | xH => 1
+  | xO p => PtoR p *+ 2
+  | xI p => PtoR p *+ 2 + 1
+  end.
+
+Lemma PtoRE p : PtoR p = (Pos.to_nat p)%:R.
+Proof.
+elim: p => [p IH|p IH|] /=; rewrite ?IH ?Pos2Nat.inj_xI ?Pos2Nat.inj_xO ?Pos2Nat.inj_1 //.
+  by rewrite -[in RHS]addn1 natrD multE natrM mulr_natl.
+by rewrite multE natrM mulr_natl.
+Qed.
+
+Lemma PtoR_gt0 p : 0 < PtoR p.
+Proof. by rewrite PtoRE ltr0n; apply/ssrnat.ltP; exact: Pos2Nat.is_pos. Qed.
+
 Definition ZtoR (z : Z) : R :=
   match z with
   | Z0 => 0
-  | Zpos p => (Pos.to_nat p)%:R
-  | Zneg p => - (Pos.to_nat p)%:R
+  | Zpos p => PtoR p
+  | Zneg p => - PtoR p
   end.
 
 Definition ROps : Ops R :=
@@ -29,13 +47,16 @@ Definition ROps : Ops R :=
 Lemma ofnatE n : ofnat ROps n = n%:R.
 Proof.
 rewrite /ofnat /kz /=; case: n => [|n] //=.
-by rewrite SuccNat2Pos.id_succ.
+by rewrite PtoRE SuccNat2Pos.id_succ.
 Qed.
 
 Lemma c0E : c0 ROps = 0. Proof. by []. Qed.
-Lemma c1E : c1 ROps = 1. Proof. by rewrite /c1 /kz /= Pos2Nat.inj_1. Qed.
+Lemma c1E : c1 ROps = 1. Proof. by []. Qed.
+Lemma kzE p : kz ROps (Zpos p) = (Pos.to_nat p)%:R.
+Proof. by rewrite -PtoRE. Qed.
+
 Lemma c2E : c2 ROps = 2%:R.
-Proof. by rewrite /c2 /kz /=; congr (_%:R). Qed.
+Proof. by rewrite /c2 kzE; congr (_%:R). Qed.
 
 (* ---- lexicographic comparison of weighted values ---- *)
 Notation lle := (lex_le ROps).
@@ -393,8 +414,8 @@ Proof.
 move=> l0; cbv zeta; rewrite /plain_defaults.
 have l0' : 0 < lam%:R :> R by rewrite ltr0n.
 have pt := ptarg_formula_range (ltW l0').
-have five : kz ROps 5 = 5%:R by rewrite /kz /= /ZtoR; congr (_%:R).
-have six : kz ROps 6 = 6%:R by rewrite /kz /= /ZtoR; congr (_%:R).
+have five : kz ROps 5 = 5%:R by rewrite kzE; congr (_%:R).
+have six : kz ROps 6 = 6%:R by rewrite kzE; congr (_%:R).
 rewrite !ofnatE !c1E !c2E five six /=; split.
 - by apply: cp_formula_range => //; case/andP: pt.
 - exact: pt.
